@@ -43,7 +43,7 @@ def with_metadata(query_src, dm: DataModel):
                 self.done = True
                 cur = node
                 for d in mds:
-                    d = {k: v for k, v in d.items() if k != "ref_lambda"}
+                    d = {k: v for k, v in d.items() if k not in ("ref_lambda", "py_lambda")}
                     cur = ast.Call(func=ast.Name(id="MetaData", ctx=ast.Load()),
                                    args=[cur, ast.parse(repr(d), mode="eval").body], keywords=[])
                 return cur
